@@ -7,7 +7,9 @@ S (spec check on the implementation's artists, exact arithmetic by the extracted
   translates of the unwrapped plaquette, clipped areas sum to the plaquette's area, no two
   drawn polygons overlap inside the cell, colour = scheme[label]; vertices at positions;
   labels per element == labels per subset element; line_intersection == exact predicate.
-K: the Gallina model's drawn set (Model/Plot.v) vs the artists."""
+K: the Gallina model's drawn set (Model/Plot.v) vs the artists; the glue of Model/PlotGlue.v (colour resolution, defaults,
+   color= keyword, plot_dual) vs _process_plot_args and the artists (harness/c16x.py); a sample of the driver's answers is
+   re-derived inside Coq (vm_compute) on every run."""
 from lib import *  # noqa
 import gen
 import time
@@ -25,7 +27,7 @@ MODEL_TARGETS = ["Model/Clip.vo", "Model/Plot.vo", "Model/PlotGlue.vo"]
 TARGETS = ["Proofs/ClipFacts.vo", "Proofs/PlotFacts.vo", "Proofs/VisFacts.vo", "Proofs/CoverFacts.vo", "Proofs/PlaqFacts.vo",
            "Proofs/PolyAreaFacts.vo", "Proofs/PolyCellFacts.vo", "Proofs/PolyRegionFacts.vo", "Proofs/PlaqCoverFacts.vo",
            "Proofs/PolyStrictFacts.vo", "Proofs/PolyExactFacts.vo", "Proofs/PlaqPointFacts.vo",
-           "Proofs/ClipAnyFacts.vo", "Proofs/PlotGlueFacts.vo"]
+           "Proofs/ClipAnyFacts.vo", "Proofs/ClipGenArea.vo", "Proofs/PlotGlueFacts.vo"]
 LEVEL = "proof"
 TRUST = [
     "hand-written Gallina model coq/Model/Plot.v of plotting.py (_process_plot_args, _broadcast_args, plot_vertices/edges/plaquettes replication rules, "
@@ -36,6 +38,12 @@ TRUST = [
     "Sutherland–Hodgman clipping + shoelace area in coq/Model/Clip.v used by the spec checker for plaquette areas is executable but not proved correct (the edge clip interval IS proved: C16_clip_interval_correct)",
     "exact-grid stream (vertices on the 1/8 grid, also ON cell lines, edge vectors in {0,+-1/8,+-1/4,+-1/2}): float arithmetic of the rules is exact there, model and implementation must agree (K); the property itself is not claimed on cell lines (S skipped)",
     "the subset has exactly N elements: a length-N label array is the per-element form by definition (lead decision); only that reading is generated and checked there",
+    "hand-written Gallina model coq/Model/PlotGlue.v of the remaining glue (colour-scheme resolution: str scheme, np.array of strings with numpy's fixed-width "
+    "truncation on color_scheme[0] = kwargs['color'], the default arguments, what color= does to each artist, plot_dual = plot_edges o make_dual with Model/Dual.v): "
+    "modelled, not verified; tied to the code by correspondence runs on _process_plot_args (function level) and on the artists; schemes that are not lists of strings are not modelled; "
+    "matplotlib's is_color_like and scatter's c-versus-color rule are observed, not modelled",
+    "extraction + OCaml driver: a sample of the driver's answers of every command is re-derived inside Coq by vm_compute on the same literals (harness/c16x.py, harness/xcheck.py) on every run; "
+    "the rest of the answers rely on the extraction and the hand-written driver/hexio",
 ]
 ASSUMPTIONS = ["edges spanning less than one cell per coordinate, generic position: no end point on a cell line, no segment through a cell corner (property quantifier)",
                "plaquettes are those reported by lattice.plaquettes (their legitimacy is C01's property)"]
@@ -1037,8 +1045,6 @@ def run(ctx):
     import c16x
     ctx.xrec = {}
     cases = lattice_cases(ctx.tier, ctx.seed)
-    if os.environ.get("C16_DEBUG_FEW"):
-        cases = cases[::12]
     for c in cases:
         evaluate_lattice(ctx, c)
     evaluate_args(ctx, 250 if ctx.tier == "quick" else 2000, ctx.seed)
@@ -1108,5 +1114,9 @@ def replay(ctx, payload):
         check_args_case(ctx, case, o)
     elif k == "lint":
         check_lint_case(ctx, case)
+    elif k == "cargs":
+        import c16x
+        outs = drv(ctx, ["argsc %d %s" % (case["N"], c16x.c_tokens(case)), "cres %s %s" % (c16x.sarg_tok(case["sarg"]), c16x.kw_tok(case["kw"]))])
+        c16x.check_colour_args_case(ctx, case, outs[0], outs[1])
     else:
         raise ValueError(f"unknown replay kind {k}")
